@@ -200,6 +200,12 @@ pub fn explore(b: &Bounds, oracle: &Oracle, deadline: Option<Instant>, threads: 
                                 break;
                             }
                         }
+                        // memory cap (no swap on the host): treated like the time cap - the level is
+                        // reported as incomplete instead of the process being killed
+                        if i % 512 == 0 && resident_gb() > RSS_CAP_GB {
+                            timed_out.store(true, Ordering::Relaxed);
+                            break;
+                        }
                         let (hist, m) = &frontier[i];
                         let rems = subsets(*m, removals);
                         // (ghost shape, removed late)
@@ -326,7 +332,7 @@ pub fn explore(b: &Bounds, oracle: &Oracle, deadline: Option<Instant>, threads: 
         eprintln!(
             "  level {}: frontier {} transitions {} new states {} violating {}{}",
             st.level, st.frontier, st.transitions, st.new_states, st.violating_transitions,
-            if complete { "" } else { " (INCOMPLETE: time cap)" }
+            if complete { "" } else { " (INCOMPLETE: time or memory cap)" }
         );
         out.levels.push(st);
         for (k, (len, v)) in viol.into_inner().unwrap() {
@@ -363,6 +369,17 @@ pub fn explore(b: &Bounds, oracle: &Oracle, deadline: Option<Instant>, threads: 
 }
 
 #[allow(dead_code)]
+pub const RSS_CAP_GB: f64 = 36.0;
+
+/// Resident set of this process in GB (0 when /proc is not readable).
+pub fn resident_gb() -> f64 {
+    std::fs::read_to_string("/proc/self/statm")
+        .ok()
+        .and_then(|s| s.split_whitespace().nth(1).and_then(|p| p.parse::<f64>().ok()))
+        .map(|pages| pages * 4096.0 / 1e9)
+        .unwrap_or(0.0)
+}
+
 pub fn default_deadline(secs: u64) -> Option<Instant> {
     Some(Instant::now() + Duration::from_secs(secs))
 }
